@@ -83,7 +83,11 @@ while_symbolic = _unsup('while with symbolic condition (needs an invariant)')
 seq_concat = _unsup('sequence concatenation')
 seq_slice = _unsup('sequence slice')
 seq_sum = _unsup('sum over sequence')
-seq_reversed = _unsup('reversed sequence')
+def seq_reversed(I, pipe):
+    """reversed(S): the same elements in the opposite order (a stage of the pipe's shape)"""
+    return pipe.with_stage('reverse', None)
+
+
 seq_method = _unsup('sequence method')
 sym_range = _unsup('range with symbolic bound')
 rl_slice = _unsup('slice of run-length string')
